@@ -110,7 +110,9 @@ def run(c):
     def observe(seed, nrand, depth):
         res = []
         for mode in ("0", "1"):
-            rc, out = c.run_harness(hb, ["-seed", str(seed), "-rand", str(nrand), "-depth", str(depth)], timeout=900,
+            # backtracking blocks: 2 ways of mentioning the variable per choice (rotating over the blocks), all 4 in the thorough tier
+            rc, out = c.run_harness(hb, ["-seed", str(seed), "-rand", str(nrand), "-depth", str(depth),
+                                         "-bt", "4" if thorough else "2", "-btrand", "200" if thorough else "60"], timeout=900,
                                     env={"GODEBUG": "gotypesalias=" + mode})
             o = None
             for line in out.splitlines():
